@@ -180,3 +180,15 @@ package bscript
 //@ func bscript.ValidateAddress
 //@   bytes token
 //@   ensures[C17.validate_result] (=> r0 (= r1 nil))
+
+// ---- C04 (partial): the P2PKH unlocking script ----
+//@ func bscript.(*Script).AppendPushDataArray
+//@   bytes token
+//@   opt writes s
+//@   assigns (cell s) (elems s)
+//@   lemma (=> (>= (len d) 1) (= (old (spec.enc_parts d 1)) (bcat beps (bcat (spec.pd (old (len (at d 0)))) (old (bytes (at d 0)))))))
+//@   ensures[C04.append_array] (=> (= err nil) (= (bytes s) (bcat (old (bytes s)) (old (spec.enc_parts d (len d))))))
+//@   ensures[C04.append_two] (=> (and (= err nil) (= (len d) 2)) (= (bytes s) (bcat (old (bytes s)) (bcat (bcat beps (bcat (spec.pd (old (len (at d 0)))) (old (bytes (at d 0))))) (bcat (spec.pd (old (len (at d 1)))) (old (bytes (at d 1))))))))
+//@ func bscript.NewP2PKHUnlockingScript
+//@   bytes token
+//@   ensures[C04.unlock_script] (=> (= err nil) (and (not (nil? r0)) (= (bytes r0) (spec.p2pkh_unlock (old (bytes sig)) sigHashFlag (old (bytes pubKey))))))
